@@ -6,7 +6,7 @@ solver-decided comparison (eager booleans), so the matcher is a deterministic pr
 """
 import re as _re
 from . import core
-from .core import EngineGap, SymStr, k_in, _b
+from .core import EngineGap, SymStr, TailView, k_in, _b
 
 _P = _re._parser
 _C = _re._constants
@@ -52,17 +52,19 @@ def _ch_in(c, codes):
 
 
 class SymMatch:
-    def __init__(self, s, g, names, end):
-        self.s, self.g, self.names, self._end = s, g, names, end
+    """positions are stored absolute in `base`; the API reports them relative to the matched string"""
+
+    def __init__(self, base, off, g, names, end):
+        self.base, self.off, self.g, self.names, self._end = base, off, g, names, end
 
     def end(self, k=0):
-        return self.g[k][1] if k else self._end
+        return (self.g[k][1] if k else self._end) - self.off
 
     def start(self, k=0):
-        return self.g[k][0]
+        return self.g[k][0] - self.off
 
     def span(self, k=0):
-        return self.g[k]
+        return (self.g[k][0] - self.off, self.g[k][1] - self.off)
 
     def group(self, k=0):
         return self[k]
@@ -71,7 +73,7 @@ class SymMatch:
         if isinstance(k, str):
             k = self.names[k]
         sp = self.g.get(k)
-        return None if sp is None else self.s[sp[0]:sp[1]]
+        return None if sp is None else self.base[sp[0]:sp[1]]
 
 
 def _width(p):
@@ -112,7 +114,7 @@ class SymPattern:
                 yield from self._m(nodes, ni + 1, it, pos + 1, g)
         elif op == _C.AT:
             if av == _C.AT_BEGINNING or av == _C.AT_BEGINNING_STRING:
-                if pos == 0:
+                if pos == self._bos:
                     yield from self._m(nodes, ni + 1, it, pos, g)
             elif av == _C.AT_END_STRING:
                 if pos == len(it):
@@ -156,7 +158,7 @@ class SymPattern:
             ok = False
             if direction < 0:
                 w = _width(p)
-                if pos - w >= 0:
+                if pos - w >= self._bos:
                     for p2, _ in self._m(p, 0, it, pos - w, g):
                         if p2 == pos:
                             ok = True
@@ -170,19 +172,27 @@ class SymPattern:
         else:
             raise EngineGap(f"regex op {op}")
 
-    def _match_at(self, s, start):
-        for p2, g in self._m(list(self.tree), 0, s.it, start, {}):
+    def _match_at(self, base, bos, start):
+        self._bos = bos
+        for p2, g in self._m(list(self.tree), 0, base.it, start, {}):
             g = dict(g)
             g[0] = (start, p2)
-            return SymMatch(s, g, self.names, p2)
+            return SymMatch(base, bos, g, self.names, p2)
         return None
+
+    @staticmethod
+    def _view(s):
+        if type(s) is TailView:
+            return s.base, s.off
+        return s, 0
 
     def match(self, s):
         if isinstance(s, str):
             return self.real.match(s)
         if not isinstance(s, SymStr):
             raise EngineGap(f"regex on {type(s).__name__}")
-        return self._match_at(s, 0)
+        base, off = self._view(s)
+        return self._match_at(base, off, off)
 
     def search(self, s):
         if isinstance(s, str):
@@ -192,8 +202,9 @@ class SymPattern:
         hook = core.SEARCH_HOOK
         if hook is not None:
             return hook(self, s)
-        for i in range(len(s.it) + 1):
-            m = self._match_at(s, i)
+        base, off = self._view(s)
+        for i in range(off, len(base.it) + 1):
+            m = self._match_at(base, off, i)
             if m is not None:
                 return m
         return None
@@ -201,11 +212,13 @@ class SymPattern:
     def fullmatch(self, s):
         if isinstance(s, str):
             return self.real.fullmatch(s)
-        for p2, g in self._m(list(self.tree), 0, s.it, 0, {}):
-            if p2 == len(s.it):
+        base, off = self._view(s)
+        self._bos = off
+        for p2, g in self._m(list(self.tree), 0, base.it, off, {}):
+            if p2 == len(base.it):
                 g = dict(g)
-                g[0] = (0, p2)
-                return SymMatch(s, g, self.names, p2)
+                g[0] = (off, p2)
+                return SymMatch(base, off, g, self.names, p2)
         return None
 
 
